@@ -631,6 +631,11 @@ func c19runSwarm(sp c19spec, dir string, r *hlib.Rng) (sw *c19swarm) {
 		}
 	}
 	time.Sleep(50 * time.Millisecond)
+	for _, p := range sw.peers {
+		if p.up && p.cads != nil {
+			p.cads.Close()
+		}
+	}
 	return sw
 }
 
@@ -638,9 +643,6 @@ func (sw *c19swarm) cleanup() {
 	for _, p := range sw.peers {
 		if p.casStop != nil {
 			p.casStop()
-		}
-		if p.cads != nil && p.up {
-			p.cads.Close()
 		}
 	}
 	sw.stopTr()
@@ -874,6 +876,8 @@ func (sw *c19swarm) emit(ctx *hlib.Ctx) {
 				return
 			}
 			ensure(it.a, it.p)
+			// the sender announced the piece if it verified it after the handshake
+			labels = append(labels, fmt.Sprintf("AnnouncePiece %d %d %d", it.p, it.a, it.i))
 			labels = append(labels, fmt.Sprintf("Request %d %d [%d] 1", it.a, it.p, it.i), fmt.Sprintf("Serve %d %d %d", it.p, it.a, it.i),
 				fmt.Sprintf("RecvBegin %d %d %d", it.a, it.p, it.i), fmt.Sprintf("RecvEnd %d %d", it.a, it.i))
 			have[it.a][it.i] = true
@@ -986,7 +990,7 @@ func (sw *c19swarm) emit(ctx *hlib.Ctx) {
 	var tab, badids []string
 	sw.mu.Lock()
 	for k, b := range sw.pay {
-		tab = append(tab, fmt.Sprintf("(%d, (%d, %d%%N))", k, len(b), crc32.ChecksumIEEE(b)))
+		tab = append(tab, fmt.Sprintf("(%d, (%d%%N, %d%%N))", k, len(b), crc32.ChecksumIEEE(b)))
 		if k >= n {
 			badids = append(badids, fmt.Sprint(k))
 		}
@@ -1135,7 +1139,12 @@ func c19gen(r *hlib.Rng, kind string, tier string) c19spec {
 	sp.budget = 25 * time.Second
 	switch kind {
 	case "baseline":
-		sp.expect = true
+		// no fault; convergence within the budget is demanded only when every peer can be
+		// connected to every other at once (with tighter limits the swarm may crawl: see notes)
+		sp.expect = sp.maxConn >= sp.nLeech+1
+		if !sp.expect {
+			sp.kind = "baseline-tight"
+		}
 		sp.budget = 60 * time.Second
 	case "faulty":
 		sp.corrupt = r.Chance(70)
@@ -1203,9 +1212,6 @@ func c19driver(ctx *hlib.Ctx) {
 	par := 6
 	if ctx.Tier == "thorough" {
 		par = 8
-	}
-	type res struct {
-		sw *c19swarm
 	}
 	out := make([]*c19swarm, len(specs))
 	sem := make(chan struct{}, par)
